@@ -14,6 +14,7 @@ inductive Op where
   | scan (p : Bytes)
   | gapScan (p : Bytes)
   | succ (p : Bytes)
+  | roleScan (role : Role) (delta : Nat) (p : Bytes)
 
 def parseOp (t : String) : Option Op :=
   match t.splitOn ":" with
@@ -31,6 +32,11 @@ def parseOp (t : String) : Option Op :=
   | ["S", p] => do pure (.scan (← hexBytes p))
   | ["X", p] => do pure (.gapScan (← hexBytes p))
   | ["U", p] => do pure (.succ (← hexBytes p))
+  | ["L", r, d, p] => do
+      let role ← match r with
+        | "l" => some Role.leader | "f" => some Role.follower | "c" => some Role.candidate | "n" => some Role.learner
+        | _ => none
+      pure (.roleScan role (← d.toNat?) (← hexBytes p))
   | _ => none
 
 def parseCase (line : String) : Option (List Op) :=
@@ -133,6 +139,12 @@ def stepOp {σ} (E : Engine σ) (r : Run σ) : Op → Option (Run σ)
       let s := E.scan r.st p
       pure { r with reads := r.reads ++ [showScan s.1 s.2] }
   | .succ p => some { r with reads := r.reads ++ [showSucc p] }
+  | .roleScan role delta p => do
+      let r ← flush E r
+      let item := match roleScan role ((E.la r.st).1 + delta) (E.scan r.st p) with
+        | some s => showScan s.1 s.2
+        | none => "Enot-leader"
+      pure { r with reads := r.reads ++ [item] }
   | .gapScan p =>
       match E.gap r.st p r.pending with
       | none => none
@@ -202,6 +214,10 @@ def tagOp (t : TagSt) : Op → TagSt
     let t := addTag (endChunk t) "scan"
     let t := if p.isEmpty then addTag t "scan-empty-prefix" else t
     if p.getLast? == some 0xFF then addTag t "scan-ff-prefix" else t
+  | .roleScan role delta p =>
+    let t := addTag (endChunk t) (if role == .leader then (if delta == 0 then "leader-scan-caught-up" else "leader-scan-commit-ahead")
+                                  else "non-leader-scan")
+    if p.isEmpty then addTag t "scan-empty-prefix" else t
   | .succ p => addTag t (match prefixSuccessor p with
       | none => "succ-none"
       | some _ => if p.getLast? == some 0xFF then "succ-carry" else "succ-plain")
@@ -268,6 +284,13 @@ def refOp (emptyPrefixWild : Bool) (r : RefRun) : Op → RefRun
              scans := r.scans ++ [(false, p, es, r.last.1, es, r.last.1)],
              reads := r.reads ++ [if emptyPrefixWild && p.isEmpty then "S*" else "S" ++ es ++ "@" ++ toString r.last.1] }
   | .succ p => { r with reads := r.reads ++ [showSucc p] }
+  | .roleScan role _ p =>
+    let es := scanBody (r.store.filter fun kv => startsWith kv.1 p)
+    if role == .leader then
+      { r with lastInChunk := none, fStore := r.store, fLast := r.last.1,
+               scans := r.scans ++ [(false, p, es, r.last.1, es, r.last.1)],
+               reads := r.reads ++ [if emptyPrefixWild && p.isEmpty then "S*" else "S" ++ es ++ "@" ++ toString r.last.1] }
+    else { r with lastInChunk := none, fStore := r.store, fLast := r.last.1, reads := r.reads ++ ["Enot-leader"] }
   | .gapScan p =>
     let e0 := scanBody (r.fStore.filter fun kv => startsWith kv.1 p)
     let e1 := scanBody (r.store.filter fun kv => startsWith kv.1 p)
@@ -287,12 +310,13 @@ def wildEmptyScans (ops : List Op) (sec : String) : String :=
   | none => sec
   | some rd =>
     if rd == "-" then sec else
-    let readOps := ops.filter fun | .get _ | .multi _ | .scan _ | .gapScan _ | .succ _ => true | _ => false
+    let readOps := ops.filter fun | .get _ | .multi _ | .scan _ | .gapScan _ | .succ _ | .roleScan _ _ _ => true | _ => false
     let items := rd.splitOn "/"
     if items.length != readOps.length then sec else
     let items' := (items.zip readOps).map fun (it, op) =>
       match op with
       | .scan p => if p.isEmpty then "S*" else it
+      | .roleScan role _ p => if p.isEmpty && role == .leader then "S*" else it
       | _ => it
     " ".intercalate (fs.map fun (k, v) => k ++ "=" ++ (if k == "reads" then "/".intercalate items' else v))
 
@@ -329,13 +353,14 @@ def scanItems (ops : List Op) (sec : String) : Option (List String) :=
   match lookup (fields sec) "reads" with
   | none => none
   | some rd =>
-    let readOps := ops.filter fun | .get _ | .multi _ | .scan _ | .gapScan _ | .succ _ => true | _ => false
+    let readOps := ops.filter fun | .get _ | .multi _ | .scan _ | .gapScan _ | .succ _ | .roleScan _ _ _ => true | _ => false
     let items := if rd == "-" then [] else rd.splitOn "/"
     if items.length != readOps.length then none else
     some ((items.zip readOps).filterMap fun (it, op) =>
       match op with
       | .scan _ => some it
       | .gapScan _ => some it
+      | .roleScan role _ _ => if role == .leader then some it else none
       | _ => none)
 
 /-- C25 for one scan result of one engine.
@@ -347,6 +372,9 @@ def judgeScan (eng : String) (item : String) (e : Bool × Bytes × String × Nat
   let mk (es : String) (r : Nat) := "S" ++ es ++ "@" ++ toString r
   if !gap then
     if item == mk e1 r1 then none
+    else if (match item.splitOn "@" with
+             | [body, rv] => body == "S" ++ e1 && (rv.toNat?.getD 0) > r1
+             | _ => false) then some (eng ++ "-scan-revision-ahead-of-data")
     else if p.isEmpty && item == mk "" r1 && e1 != "" then some (eng ++ "-empty-prefix-scan-returns-nothing")
     else some (eng ++ "-scan-wrong")
   else
